@@ -8,7 +8,10 @@ def replay(exe, steps, workdir, timeout=120):
     path = os.path.join(workdir, "prog_%d.txt" % os.getpid())
     with open(path, "w") as f:
         f.write("\n".join(steps) + "\n")
-    p = core.sh([exe, "0", "0", path], timeout=timeout)
+    try:
+        p = core.sh([exe, "0", "0", path], timeout=timeout)
+    except subprocess.TimeoutExpired:      # a hang of the real library on this program is a failing outcome like a crash
+        return -14, [], []
     made = [int(m.group(2)) for m in re.finditer(r"^STEP (\d+) made (\d+)", p.stdout, re.M)]
     cs, _ = core.parse_cases(p.stdout)
     return p.returncode, cs, made
